@@ -72,12 +72,15 @@ InitStates == {"absent", "gen", "user", "dir"}
 Phases    == <<"load", "init", "parse", "select", "resolve", "collect">>
 Levels    == <<"root", "pkg", "iface", "entry">>
 
-NoFault == [kind |-> "none", file |-> "-", files |-> {}, at |-> "-", class |-> "-", level |-> "-", pos |-> "-", ctx |-> "-"]
-StageFault(f, s) == [kind |-> "stage", file |-> f, files |-> {f}, at |-> s, class |-> "-", level |-> "-", pos |-> "-", ctx |-> "-"]
+NoFault == [kind |-> "none", file |-> "-", files |-> {}, at |-> "-", class |-> "-", level |-> "-", pos |-> "-", ctx |-> "-", feature |-> "-"]
+StageFault(f, s) == [kind |-> "stage", file |-> f, files |-> {f}, at |-> s, class |-> "-", level |-> "-", pos |-> "-", ctx |-> "-", feature |-> "-"]
 \* one cause shared by several output files (they use the same custom template / schema / template-data): the
 \* stage fails for EVERY file in S, whichever comes first and whether or not the run goes on after the first failure
-SharedFault(S, s) == [kind |-> "shared", file |-> "*", files |-> S, at |-> s, class |-> "-", level |-> "-", pos |-> "-", ctx |-> "-"]
-InputFault(c, l, p, x) == [kind |-> "input", file |-> "-", files |-> {}, at |-> "-", class |-> c, level |-> l, pos |-> p, ctx |-> x]
+SharedFault(S, s) == [kind |-> "shared", file |-> "*", files |-> S, at |-> s, class |-> "-", level |-> "-", pos |-> "-", ctx |-> "-", feature |-> "-"]
+\* feature: an unusual-but-valid trait of the SAME package the fault sits in (a file excluded by GOOS suffix or build
+\* tag, a test-only file, a //line directive, a generated-code header ...); "-" = none
+InputFault(c, l, p, x, ft) == [kind |-> "input", file |-> "-", files |-> {}, at |-> "-", class |-> c, level |-> l, pos |-> p, ctx |-> x, feature |-> ft]
+PkgFeatures == {"goos-file", "tools-tag-file", "ignored-file", "test-file", "line-directive", "generated-header", "cgo-free-generated"}
 
 -----------------------------------------------------------------------------
 (* Invalid-input classes of C09: at which configuration levels each can be written, and where the
@@ -91,10 +94,13 @@ ClassLevels(c) ==
     [] c \in {"pkg-missing-all", "pkg-missing-regex", "pkg-missing-listed", "pkg-typeerr", "pkg-parseerr", "pkg-importerr"} -> {"pkg"}
     [] c \in {"conflict-srcpkg"} -> {"root", "pkg"}
     [] c \in {"conflict-pkgname", "conflict-template"} -> {"iface", "entry"}
+    \* a cyclic value that every level below overrides, so that no mock uses it
+    [] c \in {"cyclic-shadowed"} -> {"root", "pkg", "iface"}
 InputClasses == {"unknown-template", "unknown-formatter", "unknown-key", "unknown-key-pkgstruct", "unknown-key-ifacestruct",
                  "schema-data", "cyclic", "include-regex", "exclude-regex", "subpkg-regex", "missing-iface",
                  "pkg-missing-all", "pkg-missing-regex", "pkg-missing-listed", "pkg-typeerr", "pkg-parseerr", "pkg-importerr",
-                 "conflict-srcpkg", "conflict-pkgname", "conflict-template"}
+                 "conflict-srcpkg", "conflict-pkgname", "conflict-template", "cyclic-shadowed"}
+PkgErrClasses == {"pkg-typeerr", "pkg-parseerr", "pkg-importerr"}
 
 \* pre-loop phase in which the code reports the class ("-" : not before the loop)
 PhaseOf(c) ==
@@ -131,6 +137,9 @@ FaultyAt(wd, f, s) ==
   \/ wd.fault.kind = "stage" /\ wd.fault.file = f /\ wd.fault.at = s
   \/ wd.fault.kind = "shared" /\ f \in wd.fault.files /\ wd.fault.at = s
   \/ wd.fault.kind = "input" /\ StageOfClass(wd.fault.class) = s /\ (wd.fault.level = "root" \/ f = Victim(wd.fault))
+  \* mockery.go:320  the package-level config of the file's source package is resolved at the top of the per-file loop:
+  \* a cycle there is reported even when every mock overrides the parameter
+  \/ wd.fault.kind = "input" /\ wd.fault.class = "cyclic-shadowed" /\ wd.fault.level = "pkg" /\ f = Victim(wd.fault) /\ s = "template"
 
 -----------------------------------------------------------------------------
 (* File system: designated output paths, their parent directories, and everything else in the tree. *)
@@ -171,12 +180,18 @@ AnyFailure(wd) ==
   \/ wd.fault.kind = "input"
   \/ \E f \in Configured(wd) : MustKeep(wd, f)
   \/ HasMissing(wd)
+\* The statement lists "a cyclic templated value" among the inputs that fail, without saying it has to be in effect.
+\* The code reports a shadowed cycle written at package level; one written at top level or at interface level (and
+\* overridden by every package / every configs entry) is never resolved and the run succeeds.  The contract demands
+\* failure where statement and code agree (package level) and leaves the other two placements open.
+UndecidedInput(wd) == wd.fault.kind = "input" /\ wd.fault.class = "cyclic-shadowed" /\ wd.fault.level # "pkg"
 AllowedFinal(wd, f) ==
   IF f \notin Configured(wd) THEN {"old"}
+  ELSE IF UndecidedInput(wd) THEN {"old", "new"}
   ELSE IF MustKeep(wd, f) THEN {"old"}
   ELSE IF AnyFailure(wd) THEN {"old", "new"}     \* the statement does not say whether the run goes on after a failure
   ELSE {"new"}
-ExpectExit(wd) == IF AnyFailure(wd) THEN "nonzero" ELSE "zero"
+ExpectExit(wd) == IF UndecidedInput(wd) THEN "any" ELSE IF AnyFailure(wd) THEN "nonzero" ELSE "zero"
 Expectation(wd) == [exit   |-> ExpectExit(wd),
                     final  |-> [f \in FileSet |-> AllowedFinal(wd, f)],
                     parents |-> {"same", "created"},           \* parent directories of designated paths may be created
@@ -289,11 +304,11 @@ FailedFileUntouched == \A f \in failed : Outcome(f) = "old"
 WriteOnlyAfterAllStagesOk == [][\A f \in FileSet : f \in written' /\ f \notin written =>
                                    cur = f /\ oks = StageSet /\ Steps[step] = "write"]_vars
 WrittenIsNew == \A f \in FileSet : f \in written <=> (fs[Out(f)] = "NEW")
-ExitZeroIffAllWritten == pc = "done" /\ ~deviated => (exit = 0 <=> (written = Configured(w) /\ ~HasMissing(w) /\ failed = {} /\ w.fault.kind # "input"))
+ExitZeroIffAllWritten == pc = "done" /\ ~deviated => (exit = 0 <=> (written = Configured(w) /\ ~HasMissing(w) /\ failed = {} /\ (w.fault.kind # "input" \/ UndecidedInput(w))))
 \* the terminal state is one the exported expectation accepts (known deviations excepted: they are predictions to replay)
 ExitClass == IF exit = 0 THEN "zero" ELSE "nonzero"
 MeetsContract == /\ \A f \in FileSet : Outcome(f) \in AllowedFinal(w, f)
-                 /\ ExitClass = ExpectExit(w)
+                 /\ ExpectExit(w) \in {"any", ExitClass}
 ImplMeetsContract == pc = "done" /\ ~deviated => MeetsContract
 \* a known deviation really is one whenever nothing else makes the run fail
 DeviationsAreViolations == pc = "done" /\ deviated /\ failed = {} => ~MeetsContract
